@@ -522,6 +522,15 @@ package model
 //@   ensures [registered_under_that_name] result != nil && exists k int :: 0 <= k && k < len(pf.Functions) && *result == pf.Functions[k] && utils.identOf(pf.Functions[k]) == function
 //@   assumes [a_function_of_registry_and_name] *result == funcOf(*pf, function)
 
+// FetchParameters: what GET /api/preferenceFunctions lists - an entry under the name of every registered method (the schema itself is
+// built by an external reflector and is not described)
+//@ func (*PreferenceFunctions).FetchParameters
+//@   property C20
+//@   ensures [an_entry_under_the_name_of_every_registered_method] result != nil && forall k int :: 0 <= k && k < len(pf.Functions) ==> utils.identOf(pf.Functions[k]) in *result
+//@   ensures [no_entry_under_another_name] forall q string :: q in *result ==> exists k int :: 0 <= k && k < len(pf.Functions) && utils.identOf(pf.Functions[k]) == q
+//@   loop 1 invariant [so_far] forall k int :: 0 <= k && k < iter ==> utils.identOf(pf.Functions[k]) in functionsParameters
+//@   loop 1 invariant [only] forall q string :: q in functionsParameters ==> exists k int :: 0 <= k && k < iter && utils.identOf(pf.Functions[k]) == q
+
 //@ ifacemethod PreferenceFunction.ParseParams
 //@   ensures forall l BiasListener :: listensFor(l, self) ==> validParams(l, result) && coversAll(l, result, dm.Criteria)
 
